@@ -1,13 +1,13 @@
 CONSTANTS
   MaxThreads = 3
-  MaxPasses = 4
+  MaxPasses = 6
   MaxCmds = 6
-SPECIFICATION FairSpec
+SPECIFICATION MSpec
 INVARIANT TypeOK
 INVARIANT OneRunner
 INVARIANT HolderRuns
 INVARIANT StopWithinOnePass
 INVARIANT FlagCoversRun
-PROPERTY StoppedEnds
+PROPERTY Emit
 CONSTRAINT Bound
 CHECK_DEADLOCK FALSE
